@@ -304,6 +304,38 @@ func (e *env) attack(parent *types.Block, t uint32, txs types.Transactions, note
 	}
 }
 
+// forgedBox wraps tx (once or twice) into a box signed by boxer whose payload text announces random hashes for the sub
+// transactions: the "hash" member of a sub transaction's JSON form is signed by nobody.
+func forgedBox(B fx.TxB, boxer fx.Key, tx *types.Transaction, twice bool, r *run.Rng) *types.Transaction {
+	one, err := json.Marshal(tx)
+	if err != nil {
+		return nil
+	}
+	var list []json.RawMessage
+	n := 1
+	if twice {
+		n = 2
+	}
+	for i := 0; i < n; i++ {
+		var m map[string]json.RawMessage
+		if json.Unmarshal(one, &m) != nil {
+			return nil
+		}
+		m["hash"] = json.RawMessage(`"` + common.BytesToHash(r.Bytes(32)).Hex() + `"`)
+		enc, _ := json.Marshal(m)
+		list = append(list, enc)
+	}
+	data, _ := json.Marshal(map[string]interface{}{"subTxList": list})
+	f := fx.Fields(B.Box(boxer, types.Transactions{tx}, tx.Expiration()))
+	f.Data = data
+	f.Sigs = nil
+	unsigned, err := f.Tx()
+	if err != nil {
+		return nil
+	}
+	return fx.Sign(unsigned, boxer)
+}
+
 func variants(tx *types.Transaction) map[string]*types.Transaction {
 	out := map[string]*types.Transaction{"same-bytes": tx}
 	f := fx.Fields(tx)
@@ -511,7 +543,11 @@ func scenario(c *run.Ctx, idx int, edge bool) {
 			if uint32(at) > incl[old.Hash()]+1700 {
 				age = "near-lifetime-end"
 			}
-			switch r.Intn(4) {
+			switch r.Intn(5) {
+			case 4: // wrapped into a box whose JSON text announces other hashes for the sub transactions (nobody signs that member)
+				if fb := forgedBox(B, w.Users[0], v, r.Chance(1, 2), r); fb != nil {
+					e.attack(head, at, types.Transactions{fb}, "replay-in-box-announcing-another-hash:"+name+":"+age)
+				}
 			case 0: // wrapped into a box
 				bx := B.Box(w.Users[0], types.Transactions{v}, v.Expiration())
 				e.attack(head, at, types.Transactions{bx}, "replay-in-box:"+name+":"+age)
